@@ -453,6 +453,27 @@ func RunHostile(seed int64, rounds int, tmp string, emit func(J)) (map[string]in
 				h.probe()
 			}
 		}
+		// proposals that are valid in everything but their type / option list, from validators, built with the current
+		// nonce one by one so that each is really judged on its options; accepted ones live on and are settled blocks later
+		kr := s.R.KR
+		optTypes := []int32{0x0101, 0x0200, 0, -1, math.MaxInt32}
+		optLists := [][][]byte{nil, {}, {[]byte(`{"gasPrice":"10"}`)}, {[]byte(`{`)}, {nil}, {[]byte(`{"gasPrice":"10"}`), []byte(`{"minTrxGas":"10"}`)}, {[]byte(`null`)}}
+		k := round
+		for _, ot := range optTypes {
+			ol := optLists[k%len(optLists)]
+			k++
+			from := 1 + k%3
+			s.Last = nil
+			var bz []byte
+			func() {
+				defer func() { _ = recover() }()
+				tx := web3.NewTrxProposal(kr.Addr(from), types.ZeroAddress(), s.nonce(from), s.gas(), s.price(), "m", s.H+1+int64(k%2), 2, s.H+6+int64(k%3), ot, ol...)
+				bz = s.B.Sign(tx, from, s.Sc.Genesis.ChainID)
+			}()
+			if bz != nil {
+				h.tx("DeliverTx", bz, "proposal-shape")
+			}
+		}
 		h.probe()
 		if s.R.Dead != "" {
 			break
@@ -460,6 +481,26 @@ func RunHostile(seed int64, rounds int, tmp string, emit func(J)) (map[string]in
 		s.Last = nil
 		s.End()
 		emit(J{"ev": "Sync", "state": h.stateTok()})
+	}
+	// what was accepted above is settled (voting windows close, proposals are applied) in the following blocks
+	for i := 0; i < 10 && s.R.Dead == ""; i++ {
+		s.Last = nil
+		s.Begin(allHdr)
+		for _, id := range s.Proposals() {
+			if i%3 == 0 {
+				s.Last = nil
+				s.Vote(1+i%3, id, int32(i%2))
+			}
+		}
+		emit(J{"ev": "Sync", "state": h.stateTok()})
+		h.probe()
+		s.Last = nil
+		s.End()
+		emit(J{"ev": "Sync", "state": h.stateTok()})
+	}
+	if s.R.Dead != "" {
+		// a consensus call (BeginBlock / EndBlock / Commit) panicked while the accepted inputs were being settled
+		emit(J{"ev": "Dead", "what": s.R.Dead, "h": small(s.H)})
 	}
 	return h.stats, s.R.Dead, nil
 }
